@@ -708,11 +708,12 @@ theorem generated_overrides_modelled :
     default-domain operator listed in `_NON_DETERMINISTIC_OPS`; nothing else is listed (a deterministic
     operator would silently lose propagation); `propagate_values_onnx` consults the set and returns `{}`
     before the backend is obtained; `_Inline.propagate_values` tests for subgraph attributes before the
-    backend is obtained. These are the facts the harness reports as `Traits` to the model. -/
+    backend is obtained, and for nodes listed in the set (fix d14b9fe: an inlined model that samples). These are the facts the harness reports as `Traits` to the model. -/
 theorem generated_sampling_guarded :
     (Generated.VPSampling.sampling.all fun p => p.1 == "" && Generated.VPSampling.listed.contains p.2) = true ∧
     (Generated.VPSampling.listed.all fun n => Generated.VPSampling.sampling.contains ("", n)) = true ∧
-    Generated.VPSampling.guardCalled = true ∧ Generated.VPSampling.inlineGuard = true := by decide
+    Generated.VPSampling.guardCalled = true ∧ Generated.VPSampling.inlineGuard = true ∧
+    Generated.VPSampling.inlineSamplingGuard = true := by decide
 
 /-! ### the pinned tree -/
 
